@@ -331,3 +331,34 @@ def has_numpy_params(gate):
         return any(isinstance(p, (np.generic, np.ndarray)) for p in gate.params)
     except Exception:
         return True
+
+
+def structured_custom_def(rng, nprng, nq, name, flavor=None):
+    """numeric custom gate with a STRUCTURED unitary matrix (dense random unitaries never hit code paths that
+    test for symmetry / hermiticity / diagonality): returns (definition, flavor)
+    flavors: diagonal phases, complex symmetric (U = O D O^T), hermitian unitary (reflection), real orthogonal,
+    phase-permutation"""
+    from orquestra.quantum.circuits import CustomGateDefinition
+
+    d = 2**nq
+    flavor = flavor or rng.choice(["diag", "symmetric", "hermitian", "orthogonal", "phaseperm"])
+    if flavor == "diag":
+        U = np.diag(np.exp(1j * nprng.uniform(-3, 3, size=d)))
+    elif flavor in ("symmetric", "orthogonal", "hermitian"):
+        O, _ = np.linalg.qr(nprng.normal(size=(d, d)))
+        if flavor == "orthogonal":
+            U = O
+        elif flavor == "symmetric":
+            U = O @ np.diag(np.exp(1j * nprng.uniform(-3, 3, size=d))) @ O.T
+        else:
+            V = L.random_unitary(nprng, d)
+            signs = np.array([1.0] + [rng.choice([1.0, -1.0]) for _ in range(d - 2)] + [-1.0])
+            U = V @ np.diag(signs) @ V.conj().T
+    else:
+        perm = list(range(d))
+        rng.shuffle(perm)
+        U = np.zeros((d, d), dtype=complex)
+        for i, j in enumerate(perm):
+            U[i, j] = rng.choice([1, -1, 1j, -1j])
+    M = sympy.Matrix([[complex(round(U[i, j].real, 12), round(U[i, j].imag, 12)) for j in range(d)] for i in range(d)])
+    return CustomGateDefinition(gate_name=name, matrix=M, params_ordering=()), flavor
